@@ -9,6 +9,7 @@ package main
 import (
 	"flag"
 	"fmt"
+	sdkversion "github.com/cosmos/cosmos-sdk/version"
 	"os"
 	"time"
 )
@@ -73,6 +74,8 @@ func main() {
 		require, caseType, fn = "Upgrade", "ucase", "umismatches"
 		opts := GenOpts{Time: time.Unix(1690000000, 0).UTC()}
 		if *profile == "handler" {
+			// the version string a release build links in (the Makefile's -ldflags): read by app.New into BaseApp.Version()
+			sdkversion.Version = "v0.0.0-verif-build-marker"
 			// a chain as it is before v1.2.0: the interchain-accounts module has no state yet (the upgrade handler initialises it)
 			opts.Drop = []string{"interchainaccounts"}
 		}
